@@ -31,7 +31,7 @@ class Gen:
             max_t=4, max_m=4, p_nonexcl=0.25, p_nested=0.15, p_struct=0.45, p_alias=0.2,
             p_rel=0.5, p_two_mods=0.2, p_fsm=0.12, p_wit=0.5, p_validate=0.2, p_enable=0.3,
             p_defect=0.0, sched="eager", p_body_in_struct=0.15, rdep_rel=True, nested=True,
-            p_rdyrun=0.0, p_badrun=0.0, p_chain=0.0, p_relalias=0.0, p_xmod=0.0, p_constenable=0.0, p_always=0.0, wit_rounds=1, p_fwdarg=0.0, fwd_safe=True,
+            p_rdyrun=0.0, p_badrun=0.0, p_chain=0.0, p_relalias=0.0, p_xmod=0.0, p_constenable=0.0, p_always=0.0, wit_rounds=1, p_fwdarg=0.0, fwd_safe=True, p_xcall=0.0,
         )
         self.opt.update(opt)
         self.nin = 0
@@ -107,10 +107,30 @@ class Gen:
                 else:
                     xpair = {xa: 1, xb: 0}
                 self.rels.append(dict(a=xa, b=xb, kind="conflict", prio=r.choice(["U", "L", "R"]), rdep=False))
+        # cross-module call sites: two transactions living in DIFFERENT modules are the first definition of their
+        # module, and each calls the same exclusive method x inside its first control structure -- one in the If
+        # alternative, the other in the Else alternative.  Call sites in different modules are never structurally
+        # exclusive, so the two transactions conflict.
+        first = {}
+        if o["p_xcall"] > 0 and nmods == 2 and r.random() < o["p_xcall"]:
+            free = [b for b in trans if not self.bodies[b - 1]["parent"]
+                    and not any(B2["parent"] == b for B2 in self.bodies)]
+            xs = [x for x in meths if not self.bodies[x - 1]["nonexcl"]]
+            if len(free) >= 2 and xs:
+                t1, t2 = r.sample(free, 2)
+                x = r.choice(xs)
+                self.bodies[t2 - 1]["mod"] = 2
+                self.bodies[t1 - 1]["ch"].insert(0, {"t": "if", "alts": [{"cond": self.inp(), "ch": [self.call(t1, x)]}]})
+                self.bodies[t2 - 1]["ch"].insert(0, {"t": "if", "alts": [{"cond": self.inp(), "ch": []},
+                                                                        {"cond": 0, "ch": [self.call(t2, x)]}]})
+                first = {t1: 1, t2: 1}
         # place definitions
         for b in order:
             B = self.bodies[b - 1]
             node = {"t": "body", "b": b}
+            if b in first:
+                roots[B["mod"]].insert(0, node)
+                continue
             if b in xpair:
                 alts = [{"cond": self.inp(), "ch": []}, {"cond": 0, "ch": []}]
                 alts[xpair[b]]["ch"].append(node)
